@@ -35,7 +35,7 @@ def _one(prop, kind, name, patch, repo):
         shutil.rmtree(evd, ignore_errors=True)
 
 
-def run(ctx, jobs=6):
+def run(ctx, jobs=10):
     if os.environ.get("VERIF_NO_SELFTEST"):
         return
     prop = ctx.prop
@@ -49,8 +49,12 @@ def run(ctx, jobs=6):
         meta = json.load(open(mp))
         if meta.get("breaks_property") == prop or any(c.get("property") == prop for c in meta.get("caught_by", [])):
             items.append(("seed", sid, pp))
+    # behaviour-preserving variants: the ones written against this property (R-Cnn-*, K-Cnn-*) and the general ones (B*); the
+    # whole set against every check is run by engine/benign_run.py (DESIGN.md 13.2)
     for pp in sorted(glob.glob(os.path.join(VERIF, "seeded", "benign", "*.diff"))):
-        items.append(("benign", os.path.basename(pp)[:-5], pp))
+        nm = os.path.basename(pp)[:-5]
+        if nm.startswith("B") or ("-%s-" % prop) in nm:
+            items.append(("benign", nm, pp))
     ctx.rule("selftest", "both-way self-test of this check: every recorded property-breaking variant is reported, every "
                          "recorded behaviour-preserving variant is silent")
     res = []
@@ -70,14 +74,16 @@ def run(ctx, jobs=6):
                 summary["seeds_reported"] += 1
             else:
                 summary["seeds_missed"].append(name)
-                ctx.report("selftest", "seed/" + name, "self-test: the recorded property-breaking change seeded/%s is NOT reported "
-                           "by this check on the current tree (the check has lost a detector)" % name)
+                # (a statement about this check, not about the tree under analysis: no verdict on the property)
+                ctx.undecided("selftest", "seed/" + name, "self-test: the recorded property-breaking change seeded/%s is NOT reported "
+                              "by this check on top of the current tree (the check has lost a detector, or the tree was restructured so that "
+                              "the rule that caught it no longer applies)" % name)
         else:
             ctx.oblige(verdict == "silent")
             if verdict == "silent":
                 summary["benign_silent"] += 1
             else:
                 summary["benign_alarms"].append(name)
-                ctx.report("selftest", "benign/" + name, "self-test: the behaviour-preserving variant seeded/benign/%s.diff raises "
-                           "an alarm (%s): the rule is too tight" % (name, detail))
+                ctx.undecided("selftest", "benign/" + name, "self-test: the behaviour-preserving variant seeded/benign/%s.diff raises "
+                              "an alarm on top of the current tree (%s): the rule is too tight, or the current tree itself is reported" % (name, detail))
     ctx.extra_cov["selftest"] = summary
